@@ -1301,7 +1301,7 @@ class DynDiGraph(nx.DiGraph):
         else:
             t_to = t_from
 
-        for u, v, ts in self.interactions_iter():
+        for u, v, ts in self.out_interactions_iter():
             i_to = t_to
             f_from = t_from
 
